@@ -6,7 +6,8 @@ class C28(vlib.Spec):
     model_vo = ["theories/Hydro/ModelFlows.vo"]
     props_vo = "theories/Props/C28.vo"
     theorems = ["C28_partition_independent_modelled_ir", "C28_final_is_denotation_modelled_ir",
-                "C28_join_delta_tickinv", "C28_generator_tickinv", "C28_holds_b_correct"]
+                "C28_join_delta_tickinv", "C28_generator_tickinv", "C28_holds_b_correct",
+                "C28_translated_terms_wf_check_sound"]
     crate, group, binary = "h_hydro", "hydro", "h_hydro"
     imports = "From HV Require Import Hydro.Model Hydro.ModelTick Hydro.ModelFlows."
     level = "other"
@@ -55,8 +56,10 @@ class C28(vlib.Spec):
         if case.get("k") == "syntax":
             if flow in tr.failed:
                 return 1
-            return hydro.emit_term_named(flow, tr.name(flow), res,
-                                         extras=tr.report.get(flow, {}).get("shared_extra", ()))
+            t = hydro.emit_term_named(flow, tr.name(flow), res,
+                                      extras=tr.report.get(flow, {}).get("shared_extra", ()))
+            w = tr.wf_term(flow)
+            return t if (w is None or isinstance(t, int)) else "(N.lor %s %s)" % (t, w)
         if hydro.broken(res) or len(res["ticks"]) != len(case["ticks"]):
             return 3
         term = "(%s %s %s %s)" % (self.fn, tr.name(flow), hydro.g_ticks(case), hydro.g_impl(res))
